@@ -74,7 +74,7 @@ fn get_delta_superficial_loss_info(
         // Note that this can round to zero (a loss far below a cent), which is not
         // representable as a NegDecimal.
         Some(sfl) => LessEqualZeroDecimal::try_from(maybe_round_to_effective_cent(
-            *cap_loss * *sfl.sfl_ratio.to_posdecimal(),
+            *cap_loss * sfl.sfl_ratio.to_decimal(),
         ))
         .unwrap(),
         None => LessEqualZeroDecimal::zero(),
@@ -153,10 +153,14 @@ fn get_delta_superficial_loss_info(
         let mut adjust_txs = Vec::new();
         for af in acb_adjust_affiliates {
             let ratio_of_sfl = &sfl.acb_adjust_affiliate_ratios[af];
-            if !ratio_of_sfl.numerator.is_zero() && !af.registered() {
-                let af_ratio_posdecimal =
-                    PosDecimal::try_from(*ratio_of_sfl.to_gezdecimal()).unwrap();
-
+            // The share of a vanishingly small holding can underflow to zero, in which
+            // case there is nothing to adjust.
+            if let (false, Ok(adjustment_amount)) = (
+                af.registered(),
+                PosDecimal::try_from(
+                    -*calculated_sfl_amount * ratio_of_sfl.to_decimal(),
+                ),
+            ) {
                 adjust_txs.push(Tx {
                     security: tx.security.clone(),
                     trade_date: tx.trade_date,
@@ -166,9 +170,7 @@ fn get_delta_superficial_loss_info(
                         // and amount_per_share should be just divided by the
                         // denominator instead of mult with the decimal.
                         shares_affected: PosDecimal::one(),
-                        amount_per_share: NegDecimal::neg_1()
-                            * calculated_sfl_amount
-                            * af_ratio_posdecimal,
+                        amount_per_share: adjustment_amount,
                     }),
                     memo: format!(
                         "Automatic SfL ACB adjustment. {:.2}% ({}) of SfL, which \
